@@ -14,6 +14,9 @@ R25d write pairing: values and registers are paired positionally from the two pa
      list handed to a layer is a comprehension over the very register list handed to it (same order), and the arguments of
      the layer's write_batch are in its (values, registers) signature order.
 Decides the routing/pairing structure for every assignment of registers to layers; concrete values are value-level.
+R25e no elided layer: in the dispatch loop every group is handed to its layer on every path of the loop body (no `continue`
+     / conditional skip before the batch call) - a "nothing changed, skip the round trip" cache keyed by the values alone
+     drops the second of two writes that carry the same values for different registers of a layer.
 """
 from __future__ import annotations
 
@@ -46,6 +49,7 @@ def run(ctx) -> None:
     ctx.rule("R25b", "grouping dict is a fresh local; every register joins exactly one group, in order")
     ctx.rule("R25c", "read results zipped with the list passed, returned in parameter order, unfiltered")
     ctx.rule("R25d", "write values paired positionally; value list ranges over the register list passed with it")
+    ctx.rule("R25e", "no layer is skipped in the dispatch loop")
 
     # ---- single-register siblings
     for name in ("read", "write"):
@@ -188,6 +192,16 @@ def run(ctx) -> None:
             ctx.fail("R25a", f, disp[0], inst, "the batch call is not made on the hardware layer the group was collected for")
             continue
         bc = bcalls[0]
+        dn = next(n for n in g.nodes if n.kind == "for" and n.ast is disp[0])
+        bn = [n for n in g.nodes if any(c is bc for c in n.calls())]
+        inst = f"{name}: every group is handed to its layer on every path of the dispatch loop"
+        skip = g.search([(dn.id, "loop")], lambda n: n.id == dn.id, blocked=lambda n: any(n.id == b.id for b in bn), follow_exc=False)
+        if skip is not None:
+            ctx.fail("R25e", f, disp[0], inst, f"a path through the dispatch loop skips `{norm(bc)[:70]}`: a layer does not receive a "
+                     "write (or read) that reading/writing each register on its own layer would perform - e.g. a cache that "
+                     "compares only the value list elides a write of the same values to other registers of the layer", skip)
+        else:
+            ctx.ok("R25e", inst)
         if name == "read_batch":
             inst = "read_batch: layer results zipped with the list that was read, stored per register"
             ok = [norm(a) for a in bc.args] == [lvar]
